@@ -770,7 +770,7 @@ class Engine:
             goal = z3.BoolVal(goal)
         hyps = list(st.pc)
         uses = getattr(self.contract, "uses", None) if self.contract is not None else None
-        if uses and kind in ("post", "yield", "site") and detail in uses:
+        if uses and kind in ("post", "yield", "site", "inv-step", "variant") and detail in uses:
             from .solve import has_quant
             allowed = uses[detail]
             def ok_tag(t):
